@@ -30,6 +30,28 @@ fn b() {
 pub struct Mutex<T: ?Sized> {
     inner: ::std::sync::Mutex<T>,
 }
+/// Guard of the instrumented `Mutex`: it remembers its mutex so that the instrumented `Condvar`
+/// can release and re-take it through scheduling points.
+pub struct MutexGuard<'a, T: ?Sized + 'a> {
+    lock: &'a Mutex<T>,
+    g: Option<::std::sync::MutexGuard<'a, T>>,
+}
+impl<'a, T: ?Sized> ::std::ops::Deref for MutexGuard<'a, T> {
+    type Target = T;
+    fn deref(&self) -> &T {
+        self.g.as_ref().unwrap()
+    }
+}
+impl<'a, T: ?Sized> ::std::ops::DerefMut for MutexGuard<'a, T> {
+    fn deref_mut(&mut self) -> &mut T {
+        self.g.as_mut().unwrap()
+    }
+}
+impl<'a, T: ?Sized + ::std::fmt::Debug> ::std::fmt::Debug for MutexGuard<'a, T> {
+    fn fmt(&self, f: &mut ::std::fmt::Formatter<'_>) -> ::std::fmt::Result {
+        (**self).fmt(f)
+    }
+}
 impl<T> Mutex<T> {
     pub const fn new(t: T) -> Self {
         Self { inner: ::std::sync::Mutex::new(t) }
@@ -39,19 +61,26 @@ impl<T> Mutex<T> {
     }
 }
 impl<T: ?Sized> Mutex<T> {
+    fn wrap<'a>(&'a self, g: ::std::sync::MutexGuard<'a, T>) -> MutexGuard<'a, T> {
+        MutexGuard { lock: self, g: Some(g) }
+    }
     pub fn lock(&self) -> LockResult<MutexGuard<'_, T>> {
         y();
         loop {
             match self.inner.try_lock() {
-                Ok(g) => return Ok(g),
-                Err(TryLockError::Poisoned(p)) => return Err(p),
+                Ok(g) => return Ok(self.wrap(g)),
+                Err(TryLockError::Poisoned(p)) => return Err(PoisonError::new(self.wrap(p.into_inner()))),
                 Err(TryLockError::WouldBlock) => b(),
             }
         }
     }
     pub fn try_lock(&self) -> TryLockResult<MutexGuard<'_, T>> {
         y();
-        self.inner.try_lock()
+        match self.inner.try_lock() {
+            Ok(g) => Ok(self.wrap(g)),
+            Err(TryLockError::Poisoned(p)) => Err(TryLockError::Poisoned(PoisonError::new(self.wrap(p.into_inner())))),
+            Err(TryLockError::WouldBlock) => Err(TryLockError::WouldBlock),
+        }
     }
     pub fn is_poisoned(&self) -> bool {
         self.inner.is_poisoned()
@@ -63,6 +92,126 @@ impl<T: ?Sized> Mutex<T> {
         self.inner.get_mut()
     }
 }
+
+/// Instrumented condition variable: waiting never blocks in the OS. A waiter registers, releases its
+/// mutex, and goes through `blocked` points until a notification names it (FIFO, no spurious wake-ups);
+/// then it re-takes the mutex through the instrumented `lock`. A waiter that is never notified keeps
+/// reporting itself blocked, which the scheduler reports as a deadlock once nothing else can run.
+pub struct Condvar {
+    st: ::std::sync::Mutex<(u64, Vec<u64>, Vec<u64>)>, // (next ticket, waiting, woken)
+}
+impl Condvar {
+    pub const fn new() -> Self {
+        Self { st: ::std::sync::Mutex::new((0, Vec::new(), Vec::new())) }
+    }
+    fn park<'a, T: ?Sized>(&self, mut guard: MutexGuard<'a, T>, rounds: Option<u32>) -> (MutexGuard<'a, T>, bool) {
+        y();
+        let ticket = {
+            let mut st = self.st.lock().unwrap_or_else(|p| p.into_inner());
+            st.0 += 1;
+            let t = st.0;
+            st.1.push(t);
+            t
+        };
+        let lock = guard.lock;
+        drop(guard.g.take());
+        let mut left = rounds;
+        let mut notified = false;
+        loop {
+            {
+                let mut st = self.st.lock().unwrap_or_else(|p| p.into_inner());
+                if let Some(i) = st.2.iter().position(|&x| x == ticket) {
+                    st.2.swap_remove(i);
+                    notified = true;
+                }
+            }
+            if notified {
+                break;
+            }
+            if let Some(n) = left.as_mut() {
+                if *n == 0 {
+                    // timed wait gives up: leave the queue
+                    let mut st = self.st.lock().unwrap_or_else(|p| p.into_inner());
+                    st.1.retain(|&x| x != ticket);
+                    break;
+                }
+                *n -= 1;
+            }
+            b();
+        }
+        let g = match lock.lock() {
+            Ok(g) => g,
+            Err(p) => p.into_inner(),
+        };
+        (g, notified)
+    }
+    pub fn wait<'a, T: ?Sized>(&self, guard: MutexGuard<'a, T>) -> LockResult<MutexGuard<'a, T>> {
+        Ok(self.park(guard, None).0)
+    }
+    pub fn wait_while<'a, T: ?Sized, F: FnMut(&mut T) -> bool>(&self, mut guard: MutexGuard<'a, T>, mut condition: F) -> LockResult<MutexGuard<'a, T>> {
+        while condition(&mut *guard) {
+            guard = self.park(guard, None).0;
+        }
+        Ok(guard)
+    }
+    /// A timed wait gives the other threads three turns, then reports a time-out.
+    pub fn wait_timeout<'a, T: ?Sized>(&self, guard: MutexGuard<'a, T>, _dur: ::std::time::Duration) -> LockResult<(MutexGuard<'a, T>, WaitTimeoutResult)> {
+        let (g, notified) = self.park(guard, Some(3));
+        Ok((g, timeout_result(!notified)))
+    }
+    pub fn notify_one(&self) {
+        y();
+        let mut st = self.st.lock().unwrap_or_else(|p| p.into_inner());
+        if !st.1.is_empty() {
+            let t = st.1.remove(0);
+            st.2.push(t);
+        }
+    }
+    pub fn notify_all(&self) {
+        y();
+        let mut st = self.st.lock().unwrap_or_else(|p| p.into_inner());
+        let all: Vec<u64> = st.1.drain(..).collect();
+        st.2.extend(all);
+    }
+}
+impl Default for Condvar {
+    fn default() -> Self {
+        Self::new()
+    }
+}
+impl ::std::fmt::Debug for Condvar {
+    fn fmt(&self, f: &mut ::std::fmt::Formatter<'_>) -> ::std::fmt::Result {
+        f.write_str("Condvar { .. }")
+    }
+}
+/// `WaitTimeoutResult` has no public constructor: obtain one from a real, private condition variable.
+fn timeout_result(timed_out: bool) -> WaitTimeoutResult {
+    let m = ::std::sync::Mutex::new(());
+    let cv = ::std::sync::Condvar::new();
+    if timed_out {
+        let g = m.lock().unwrap();
+        cv.wait_timeout(g, ::std::time::Duration::from_nanos(1)).unwrap().1
+    } else {
+        // a notification sent while a helper waits: poll until the helper reports 'not timed out'
+        let pair = ::std::sync::Arc::new((::std::sync::Mutex::new(false), ::std::sync::Condvar::new()));
+        loop {
+            let p2 = pair.clone();
+            let h = ::std::thread::spawn(move || {
+                let g = p2.0.lock().unwrap();
+                let (_g, r) = p2.1.wait_timeout_while(g, ::std::time::Duration::from_secs(5), |ready| !*ready).unwrap();
+                r
+            });
+            *pair.0.lock().unwrap() = true;
+            pair.1.notify_all();
+            let r = h.join().unwrap();
+            if !r.timed_out() {
+                return r;
+            }
+            *pair.0.lock().unwrap() = false;
+        }
+    }
+}
+
 impl<T: Default> Default for Mutex<T> {
     fn default() -> Self {
         Self::new(T::default())
